@@ -90,6 +90,18 @@ func (c *c14) genAssertion(ch *kernel.Chooser) presentation {
 		case 9:
 			iss, sub, signer = "web", "web", ""
 			label += "+keyless-client-foreign-key"
+		case 10: // the other client that authenticates by assertion signs an assertion naming this one
+			signer = "jwt2"
+			if ch.Bool(1, 2) {
+				kid = "jwt-key-1"
+			}
+			label += "+signed-by-the-other-assertion-client"
+		case 11: // ... or this client names the other one and signs with its own key (under either kid)
+			iss, sub = "jwt2", "jwt2"
+			if ch.Bool(1, 2) {
+				kid = "jwt2-key-1"
+			}
+			label += "+names-the-other-assertion-client"
 		}
 	}
 	p := mkAssertion(w, iss, sub, signer, kid, aud, iat, exp)
@@ -210,9 +222,9 @@ func (c *c14) useAssertion(ch *kernel.Chooser) string {
 func (c *c14) delegation(ch *kernel.Chooser) string {
 	w := c.w
 	now := time.Now()
-	iss := ch.Pick("jwt", "jwt", "web", "nobody")
-	sub := ch.Pick("jwt", "some-user", "web", "hyb")
-	signer := ch.Pick("jwt", "jwt", "jwt", "")
+	iss := ch.Pick("jwt", "jwt", "web", "nobody", "jwt2")
+	sub := ch.Pick("jwt", "some-user", "web", "hyb", "jwt2", "jwt2")
+	signer := ch.Pick("jwt", "jwt", "jwt", "", "jwt2")
 	kid := ""
 	if ch.Bool(1, 5) {
 		kid = "other-kid"
@@ -261,11 +273,32 @@ func (c *c14) delegation(ch *kernel.Chooser) string {
 		if req.Issuer != iss {
 			c.viol("identity", "delegating-verifier", "%s: identity %q", desc, req.Issuer)
 		}
+		// the library's own authentication functions over an exchanger that hands out this verifier (what an application
+		// with delegation configures): whoever the subject is, the client that authenticated is the issuer
+		ex := delegatingExchanger{Provider: w.OP.Provider, v: v}
+		if id, aerr := op.ClientJWTAuth(context.Background(), oidc.ClientAssertionParams{ClientAssertion: p.creds.Assertion, ClientAssertionType: oidc.ClientAssertionTypeJWTAssertion}, ex); aerr == nil && id != iss {
+			c.viol("identity", "delegating-verifier/ClientJWTAuth", "%s: ClientJWTAuth authenticated %q", desc, id)
+		}
+		if cl, aerr := op.AuthorizePrivateJWTKey(context.Background(), p.creds.Assertion, ex); aerr == nil {
+			c.o.Probe("delegated-assertions-authenticating-a-client")
+			if cl.GetID() != iss {
+				c.viol("identity", "delegating-verifier/AuthorizePrivateJWTKey", "%s: AuthorizePrivateJWTKey authenticated client %q", desc, cl.GetID())
+			}
+		}
 	} else if valid {
 		c.viol("valid-delegation-rejected", "delegating-verifier", "%s: a valid delegated assertion (key of the issuer, other subject) was rejected: %v", desc, err)
 	}
 	return desc
 }
+
+// delegatingExchanger is a provider whose JWT profile verifier is the application's own (public API: the interfaces
+// op.JWTAuthorizationGrantExchanger and op.ClientJWTProfile).
+type delegatingExchanger struct {
+	*op.Provider
+	v *op.JWTProfileVerifier
+}
+
+func (d delegatingExchanger) JWTProfileVerifier(context.Context) *op.JWTProfileVerifier { return d.v }
 
 // concurrentAssertions: ONE verifier object built through the public API (as an application that keeps it in a field
 // does) checks several assertions at the same time; the seeded scheduler switches between them at the storage's key
